@@ -1,0 +1,49 @@
+//go:build !verif
+
+package pipeline
+
+// Verification hooks (see build tag "verif"): without the tag both functions are empty and
+// inlined away; the label constants only name the call sites.
+
+// Trace label kinds.
+const (
+	vtBatchAdd         = 1
+	vtBatchFree        = 2
+	vtBatchSeal        = 3
+	vtBatchPush        = 4
+	vtBatchTake        = 5
+	vtBatchOutBegin    = 6
+	vtBatchOutEnd      = 7
+	vtBatchCommitBegin = 8
+	vtBatchCommitEnd   = 9
+	vtBatchStop        = 10
+	vtBatchTick        = 11
+	vtRetryCall        = 12
+	vtRetryResult      = 13
+	vtRetryGiveUp      = 14
+	vtBatchNotReady    = 15
+)
+
+// Gate points.
+const (
+	vgBatchAfterUnlock      = 1
+	vgBatchBeforeCommitWait = 2
+)
+
+func verifTrace(kind int, obj any, a, b, c, d int64) {}
+
+func verifGate(point int, obj any) {}
+
+func verifBool(b bool) int64 {
+	if b {
+		return 1
+	}
+	return 0
+}
+
+func verifBatchSeq(b *Batch) int64 {
+	if b == nil {
+		return -1
+	}
+	return b.seq
+}
